@@ -90,6 +90,8 @@ def make_plan(tree, seed, i, tier="quick"):
         # how the source tree relates to git: a normal clone; an exported tarball (no repository);
         # a copy sitting untracked inside some other repository (third_party/, _deps/)
         "git_repo": rng.choices(("tracked", "norepo", "untracked"), (0.7, 0.15, 0.15))[0],
+        # the tree as a symlink farm (cp -rs, stow, Bazel's sandbox): every file is a link to the real one
+        "symlink_farm": rng.random() < 0.15,
     }
     if rng.random() < 0.25:
         env["extra_entries"][UNITS_DIR] = rng.sample(STRAY, rng.choice((1, 2, 3)))
@@ -304,6 +306,7 @@ def sweep_variants(plan, twin, tier):
         variants.append({"variant": "sweep-gitrepo-%s" % st, "faults": [], "env": {"git_repo": st}})
     # other benign environments, one at a time: line endings, stray directory entries, every clock
     variants.append({"variant": "sweep-crlf", "faults": [], "env": {"crlf": not plan["env"].get("crlf", False)}})
+    variants.append({"variant": "sweep-symlink-farm", "faults": [], "env": {"symlink_farm": not plan["env"].get("symlink_farm", False)}})
     variants.append({"variant": "sweep-strays", "faults": [], "env": {"extra_entries": {UNITS_DIR: list(STRAY), CONSTANTS_DIR: list(STRAY), "au/code/au": list(STRAY[:4])}}})
     for i, clk in enumerate(CLOCKS):
         variants.append({"variant": "sweep-clock-%d" % i, "faults": [], "env": {"clock": list(clk)}})
